@@ -66,6 +66,9 @@ func main() {
 	if len(os.Args) < 3 {
 		die("usage: gofacts consts <dir> | constblock <file> <type>")
 	}
+	if wiringMode(os.Args) { // complit / callargs / retconds: see wiring.go
+		return
+	}
 	fset := token.NewFileSet()
 	conf := types.Config{Importer: importer.ForCompiler(fset, "source", nil), Error: func(error) {}}
 	switch os.Args[1] {
